@@ -964,7 +964,11 @@ func (c *compiler) evalCallExpression(node *ast.CallExpression) (interface{}, er
 		}
 	}
 
-	res := rv.Call(args)
+	res, err := safeCall(rv, args)
+	if err != nil {
+		return nil, fmt.Errorf("could not call %s function: %w", node.Function, err)
+	}
+
 	if len(res) > 0 {
 		if e, ok := res[len(res)-1].Interface().(error); ok {
 			return nil, fmt.Errorf("could not call %s function: %w", node.Function, e)
@@ -996,6 +1000,23 @@ func (c *compiler) evalCallExpression(node *ast.CallExpression) (interface{}, er
 	}
 
 	return nil, nil
+}
+
+// safeCall calls fn and reports a panic of the call (a method promoted from a
+// nil embedded pointer, a receiver the method does not expect, a helper that
+// panics) as an error, the way text/template does.
+func safeCall(fn reflect.Value, args []reflect.Value) (res []reflect.Value, err error) {
+	defer func() {
+		if r := recover(); r != nil {
+			if e, ok := r.(error); ok {
+				err = e
+			} else {
+				err = fmt.Errorf("%v", r)
+			}
+		}
+	}()
+
+	return fn.Call(args), nil
 }
 
 func (c *compiler) evalForExpression(node *ast.ForExpression) (interface{}, error) {
